@@ -128,6 +128,22 @@ def _type_check_constant_reference(expression, source_file_name, ir, errors):
         ir_data_utils.builder(expression).type.CopyFrom(
             referred_object.read_transform.type
         )
+    elif isinstance(referred_object, ir_data.RuntimeParameter):
+        errors.append(
+            [
+                error.error(
+                    source_file_name,
+                    expression.source_location,
+                    "Static references to parameters are not allowed.",
+                ),
+                error.note(
+                    referred_name.module_file,
+                    referred_object.source_location,
+                    "{} is a parameter.".format(referred_name.object_path[-1]),
+                ),
+            ]
+        )
+        return
     else:
         assert False, "Unexpected constant reference type."
 
